@@ -215,7 +215,7 @@ func ruleG2(c *Ctx, id string) {
 		if !IsRepoFunc(cs.Caller) {
 			continue
 		}
-		R.Check(cs.Caller == doDec, id, FuncName(cs.Caller)+"|calls FreeInode", P.Pos(cs.Instr.Pos()), "FreeInode is called only by doDecLink (link count reached zero)", "known caller", "an inode freed outside the unlink path")
+		R.Check(ownerOf(cs.Caller) == doDec, id, FuncName(ownerOf(cs.Caller))+"|calls FreeInode", P.Pos(cs.Instr.Pos()), "FreeInode is called only by doDecLink (link count reached zero)", "known caller", "an inode freed outside the unlink path")
 	}
 	if V.FreeInode != nil {
 		f := V.FreeInode
